@@ -593,7 +593,10 @@ func c16R5(c *Ctx) {
 	{
 		A := func(p func(ssa.Value) bool, v bool) assumption { return assumption{pred: p, val: v} }
 		tun := isFieldLoad("tunnelConnected")
-		winEnv := func(v ssa.Value) bool { call, _ := callOf(v); return call != nil && calleeID(&call.Call) == "trzsz.isWindowsEnvironment" }
+		winEnv := func(v ssa.Value) bool {
+			call, _ := callOf(v)
+			return call != nil && calleeID(&call.Call) == "trzsz.isWindowsEnvironment"
+		}
 		winProto := isFieldLoad("windowsProtocol")
 		junkCfg := isFieldLoad("TmuxOutputJunk")
 		wins := callsIn(f, idIs("(*trzsz.trzszBuffer).readLineOnWindows"))
